@@ -133,8 +133,25 @@ type pathViol struct {
 	trail    []string
 }
 
-func persistRule(c *Ctx, rule string, fn *ssa.Function) {
-	name := safeFname(fn)
+func persistRule(c *Ctx, rule string, anchor *ssa.Function) {
+	// the merge loop may have been moved into a helper of Flush: explore the function that creates the bitmaps
+	fn := anchor
+	for _, f := range c.scope(anchor, 2) {
+		has := false
+		allInstrs(f, func(i ssa.Instruction) {
+			if call, ok := i.(*ssa.Call); ok {
+				switch calleeName(&call.Call) {
+				case roaringPkg + ".New", roaringPkg + ".NewBitmap", roaringPkg + ".BitmapOf":
+					has = true
+				}
+			}
+		})
+		if has {
+			fn = f
+			break
+		}
+	}
+	name := safeFname(anchor)
 	viols := map[string]pathViol{}
 	add := func(st *xState, ins ssa.Instruction, what, msg string) {
 		k := what + "@" + c.w.ipos(ins)
@@ -402,44 +419,47 @@ func flushOrderRule(c *Ctx, rule string) {
 // schemaEncRule: writers store gob(schema field) under the schema key; open decodes that key into the same type.
 func schemaEncRule(c *Ctx, rule string) {
 	schemaT := c.a.SchemaT
-	for _, fn := range []*ssa.Function{c.a.MemWrite, c.a.BigFlush} {
-		name := safeFname(fn)
+	for _, anchor := range []*ssa.Function{c.a.MemWrite, c.a.BigFlush} {
+		name := safeFname(anchor)
 		okEnc := false
 		why := "no gob Encode of the writer's schema whose buffer is stored under the schema key"
-		allInstrs(fn, func(i ssa.Instruction) {
-			call, ok := i.(*ssa.Call)
-			if !ok || calleeName(&call.Call) != "(*encoding/gob.Encoder).Encode" {
-				return
-			}
-			arg := call.Call.Args[1]
-			if mi, ok := arg.(*ssa.MakeInterface); ok {
-				arg = mi.X
-			}
-			f := path(arg).lastField()
-			if f == nil || namedOf(f.Type()) != schemaT || c.w.ownerOf(f) != namedOf(fn.Signature.Recv().Type()) {
-				why = "what is gob-encoded is not the writer's own schema field"
-				return
-			}
-			// encoder writes into a bytes.Buffer whose Bytes() go to Put(keySchema, …)
-			enc, ok := call.Call.Args[0].(*ssa.Call)
-			if !ok || calleeName(&enc.Call) != "encoding/gob.NewEncoder" {
-				return
-			}
-			var buf ssa.Value
-			if mi, ok := enc.Call.Args[0].(*ssa.MakeInterface); ok {
-				buf = mi.X
-			}
-			allInstrs(fn, func(j ssa.Instruction) {
-				put, ok := j.(*ssa.Call)
-				if !ok || calleeName(&put.Call) != boltPut || keyKind(c, put.Call.Args[1]) != "schema" {
+		for _, fn := range c.scope(anchor, 2) {
+			fn := fn
+			allInstrs(fn, func(i ssa.Instruction) {
+				call, ok := i.(*ssa.Call)
+				if !ok || calleeName(&call.Call) != "(*encoding/gob.Encoder).Encode" {
 					return
 				}
-				if bc, ok := put.Call.Args[2].(*ssa.Call); ok && calleeName(&bc.Call) == "(*bytes.Buffer).Bytes" && bc.Call.Args[0] == buf {
-					okEnc = true
+				arg := call.Call.Args[1]
+				if mi, ok := arg.(*ssa.MakeInterface); ok {
+					arg = mi.X
 				}
+				f := path(arg).lastField()
+				if f == nil || namedOf(f.Type()) != schemaT || c.w.ownerOf(f) != namedOf(anchor.Signature.Recv().Type()) {
+					why = "what is gob-encoded is not the writer's own schema field"
+					return
+				}
+				// encoder writes into a bytes.Buffer whose Bytes() go to Put(keySchema, …)
+				enc, ok := call.Call.Args[0].(*ssa.Call)
+				if !ok || calleeName(&enc.Call) != "encoding/gob.NewEncoder" {
+					return
+				}
+				var buf ssa.Value
+				if mi, ok := enc.Call.Args[0].(*ssa.MakeInterface); ok {
+					buf = mi.X
+				}
+				allInstrs(fn, func(j ssa.Instruction) {
+					put, ok := j.(*ssa.Call)
+					if !ok || calleeName(&put.Call) != boltPut || keyKind(c, put.Call.Args[1]) != "schema" {
+						return
+					}
+					if bc, ok := put.Call.Args[2].(*ssa.Call); ok && calleeName(&bc.Call) == "(*bytes.Buffer).Bytes" && bc.Call.Args[0] == buf {
+						okEnc = true
+					}
+				})
 			})
-		})
-		c.r.check(okEnc, rule, name, "gob(schema field) stored under the schema key", "the schema key does not receive the gob encoding of the writer's schema: "+why, c.w.pos(fn.Pos()))
+		}
+		c.r.check(okEnc, rule, name, "gob(schema field) stored under the schema key", "the schema key does not receive the gob encoding of the writer's schema: "+why, c.w.pos(anchor.Pos()))
 	}
 	// reader
 	okDec := false
@@ -486,40 +506,43 @@ func schemaEncRule(c *Ctx, rule string) {
 
 // rowCountRule: the counter persisted under the row-counter key is the writer's own counter field.
 func rowCountRule(c *Ctx, rule string) {
-	for _, fn := range []*ssa.Function{c.a.MemWrite, c.a.BigFlush} {
-		name := safeFname(fn)
+	for _, anchor := range []*ssa.Function{c.a.MemWrite, c.a.BigFlush} {
+		name := safeFname(anchor)
 		ok := false
 		why := "no PutUint32 of the writer's row counter whose buffer is stored under the row-counter key"
-		allInstrs(fn, func(i ssa.Instruction) {
-			call, isCall := i.(*ssa.Call)
-			if !isCall || !strings.HasSuffix(calleeName(&call.Call), "PutUint32") {
-				return
-			}
-			val := call.Call.Args[len(call.Call.Args)-1]
-			buf := call.Call.Args[len(call.Call.Args)-2]
-			arr := sliceArray(buf)
-			// is this buffer the value of the row-counter put?
-			isCounterBuf := false
-			allInstrs(fn, func(j ssa.Instruction) {
-				put, isPut := j.(*ssa.Call)
-				if !isPut || calleeName(&put.Call) != boltPut || keyKind(c, put.Call.Args[1]) != "rows" {
+		for _, fn := range c.scope(anchor, 2) {
+			fn := fn
+			allInstrs(fn, func(i ssa.Instruction) {
+				call, isCall := i.(*ssa.Call)
+				if !isCall || !strings.HasSuffix(calleeName(&call.Call), "PutUint32") {
 					return
 				}
-				if sliceArray(put.Call.Args[2]) == arr && arr != nil {
-					isCounterBuf = true
+				val := call.Call.Args[len(call.Call.Args)-1]
+				buf := call.Call.Args[len(call.Call.Args)-2]
+				arr := sliceArray(buf)
+				// is this buffer the value of the row-counter put?
+				isCounterBuf := false
+				allInstrs(fn, func(j ssa.Instruction) {
+					put, isPut := j.(*ssa.Call)
+					if !isPut || calleeName(&put.Call) != boltPut || keyKind(c, put.Call.Args[1]) != "rows" {
+						return
+					}
+					if sliceArray(put.Call.Args[2]) == arr && arr != nil {
+						isCounterBuf = true
+					}
+				})
+				if !isCounterBuf {
+					return
+				}
+				f := srcField(val)
+				if f != nil && f.Name() == "nextRowID" && c.w.ownerOf(f) == namedOf(anchor.Signature.Recv().Type()) {
+					ok = true
+				} else {
+					why = "the value stored as row counter is not the writer's own row counter field (which counts every AddRow call, including rows without columns)"
 				}
 			})
-			if !isCounterBuf {
-				return
-			}
-			f := srcField(val)
-			if f != nil && f.Name() == "nextRowID" && c.w.ownerOf(f) == namedOf(fn.Signature.Recv().Type()) {
-				ok = true
-			} else {
-				why = "the value stored as row counter is not the writer's own row counter field (which counts every AddRow call, including rows without columns)"
-			}
-		})
-		c.r.check(ok, rule, name, "row counter key <- writer's counter field", "the persisted row counter is wrong: "+why, c.w.pos(fn.Pos()))
+		}
+		c.r.check(ok, rule, name, "row counter key <- writer's counter field", "the persisted row counter is wrong: "+why, c.w.pos(anchor.Pos()))
 	}
 }
 
